@@ -754,6 +754,48 @@ pub fn run_c10(cfg: &Cfg) -> Report {
             cx.rep.distinct(&(k, template_payload(&rs).len()));
         }
     }));
+    // descriptors whose own encoding ends in the end-tag byte pattern 79 00 (or in a lone 79), in the
+    // last and in other positions: the template must still gain its own end tag
+    rep.merge(par_cases(cfg, "res.endtag_lookalike", 11 * 3 * 8, |cx| {
+        let mut r = cx.rng.clone();
+        let k = cx.idx % 11;
+        let pos = (cx.idx / 11) % 3; // 0 last, 1 first, 2 only
+        let lo = r.below(1 << 16);
+        let look = match k {
+            0 => Res::Io { min: r.u16b(), max: r.u16b(), align: 0x79, len: 0 },
+            1 => Res::Mem32 { rw: r.bool(), base: r.u32b(), len: 0x0079_0000 | lo as u32 },
+            2 => Res::Irq { consumer: r.bool(), edge: r.bool(), low: r.bool(), shared: r.bool(), num: 0x0079_0000 | lo as u32 },
+            3 => Res::Reg(GasArgEq { space: r.below(13) as u8, width: r.u8b(), offset: r.u8b(), access: r.below(5) as u8, addr: (0x0079u64 << 48) | r.below(1 << 48) }),
+            4 => {
+                let min = r.below(0xff00);
+                Res::AddrSpace { w: AsWidth::W16, ty: r.below(3) as u8, cache: 0, rw: false, min, max: min + 0x78, trans: None }
+            }
+            5 => {
+                let len = 0x0079_0000u64 | lo;
+                let min = r.below(0x1000_0000);
+                Res::AddrSpace { w: AsWidth::W32, ty: 0, cache: r.below(4) as u8, rw: r.bool(), min, max: min + len - 1, trans: Some(r.below(1 << 32)) }
+            }
+            6 => {
+                let len = (0x0079u64 << 48) | r.below(1 << 48);
+                let min = r.below(1 << 40);
+                Res::AddrSpace { w: AsWidth::W64, ty: 1, cache: 0, rw: false, min, max: min + len - 1, trans: None }
+            }
+            7 => Res::Io { min: r.u16b(), max: r.u16b(), align: r.u8b(), len: 0x79 },
+            8 => Res::Mem32 { rw: true, base: r.u32b(), len: 0x7900_0000 | lo as u32 },
+            9 => Res::Irq { consumer: true, edge: false, low: false, shared: false, num: 0x7900_0000 | lo as u32 },
+            _ => Res::Io { min: 0x79, max: 0x7900, align: 0x79, len: 0x79 },
+        };
+        let mut rs: Vec<Res> = (0..r.below(4)).map(|_| gen_res(&mut r)).collect();
+        match pos {
+            0 => rs.push(look),
+            1 => rs.insert(0, look),
+            _ => rs = vec![look],
+        }
+        if template_case(cx, &rs) {
+            cx.rep.cov("endtag_lookalike_descriptor");
+            cx.rep.distinct(&(k, pos, format!("{:?}", rs.last())));
+        }
+    }));
     // template payload sizes across the width boundaries: 12-byte and 8-byte descriptors
     let mut targets: Vec<usize> = Vec::new();
     for b in [64usize, 256, 4096, 65536] {
